@@ -12,6 +12,8 @@ pub struct SessionCase {
     pub splittings: Vec<Vec<Vec<String>>>,
     pub has_fault: bool,
     pub max_lines_after_fault: usize,
+    /// join_next[i]: form i and form i+1 are entered as one submission (when neither fails)
+    pub join_next: Vec<bool>,
 }
 
 fn special_forms(ch: &mut Chooser) -> Form {
@@ -122,7 +124,8 @@ pub fn gen_session(ch: &mut Chooser) -> SessionCase {
         }
         splittings.push(per_form);
     }
-    SessionCase { forms, splittings, has_fault, max_lines_after_fault }
+    let join_next: Vec<bool> = (0..forms.len()).map(|_| ch.chance(1, 5)).collect();
+    SessionCase { forms, splittings, has_fault, max_lines_after_fault, join_next }
 }
 
 fn banner() -> String {
@@ -143,9 +146,29 @@ pub fn judge(c: &SessionCase) -> Report {
         let mut s = Session::stdlib().unwrap();
         texts.iter().map(|t| s.eval_display(t)).collect()
     });
+    // submissions: a form joined with its successor (both succeeding) is one submission, which prints the value of
+    // its last form only
+    let mut joined = vec![false; c.forms.len()];
+    {
+        let mut i = 0;
+        while i + 1 < c.forms.len() {
+            if c.join_next[i] && reference[i].is_ok() && reference[i + 1].is_ok() && !matches!(c.forms[i], Form::Raw(_)) && !matches!(c.forms[i + 1], Form::Raw(_)) {
+                joined[i] = true;
+                i += 2;
+            } else {
+                i += 1;
+            }
+        }
+    }
+    if joined.iter().any(|j| *j) {
+        rep.label("multi-form-submission");
+    }
     let mut exp_out = vec![banner()];
     let mut exp_err = vec![];
-    for r in &reference {
+    for (i, r) in reference.iter().enumerate() {
+        if joined[i] {
+            continue; // not the last form of its submission
+        }
         match r {
             Ok(Some(v)) => exp_out.push(v.clone()),
             Ok(None) => {}
@@ -157,10 +180,15 @@ pub fn judge(c: &SessionCase) -> Report {
     let mut first: Option<(Vec<String>, Vec<String>)> = None;
     for (si, split) in c.splittings.iter().enumerate() {
         let mut input = String::new();
-        for lines in split {
-            for l in lines {
+        for (fi, lines) in split.iter().enumerate() {
+            for (li, l) in lines.iter().enumerate() {
                 input.push_str(l);
-                input.push('\n');
+                // the last line of a joined form continues with the first line of the next form
+                if joined[fi] && li + 1 == lines.len() {
+                    input.push(' ');
+                } else {
+                    input.push('\n');
+                }
             }
         }
         let r = run_binary(&[], &dir, Some(&input));
